@@ -205,6 +205,10 @@ def keysUnique : List (Scalar × Scalar) → Bool
   | [] => true
   | (k, _) :: rest => !rest.any (fun p => p.1 == k) && keysUnique rest
 
+def isNullValue : Kind → Bool
+  | .enum _ nv => nv
+  | _ => false
+
 /-- canonical proto3 JSON reading of the JSON value offered for one field. -/
 def canon (ops : FloatOps) (o : Opts) (c : Card) (k : Kind) (j : J) : Option (Res Field) :=
   match c with
@@ -215,12 +219,12 @@ def canon (ops : FloatOps) (o : Opts) (c : Card) (k : Kind) (j : J) : Option (Re
     | _, _ => (canonScalar ops o k j).map fun r => r.bind fun v => .ok (.sing v)
   | .rep =>
     match j with
-    | .null => some (.ok (.list []))
+    | .null => if isNullValue k then none else some (.ok (.list []))   -- protojson hands a NullValue list's null to the list parser
     | .arr xs => (canonAll (canonScalar ops o k) xs).map fun r => r.bind fun l => .ok (.list l)
     | _ => some .err
   | .map kk =>
     match j with
-    | .null => some (.ok (.map []))
+    | .null => if isNullValue k then none else some (.ok (.map []))
     | .obj kvs =>
       if !namesUnique kvs || !scalarsUnique (canonKeys kk kvs) then none   -- repeated names / one key twice
       else match canonAll (canonEntry ops o kk k) kvs with
